@@ -361,6 +361,21 @@ def malformed_cases(rng, bases, thorough):
             if info is not None and lba + fi <= U32 and lba + fi not in b:
                 b[lba + fi] = bytearray(info)
             cases.append(Case("info_location_window", b, g["slot"], "tiny fat32 total=%d fs_info=%d lba=%d" % (total, fi, lba)))
+    # (iii-c) a SHORT partition-table entry near the end of the address space whose boot sector claims more blocks than
+    # the entry (the bound must come from the BPB total, not from the table): lba + table length < 2^32 <= lba + BPB total
+    for g, bl in bases:
+        for _ in range(3 * scale):
+            b = copy_blocks(bl); boot = bytearray(b[g["lba"]])
+            total = g["total"]
+            lba = rng.choice([U32 - total + 1, U32 - total + 2, U32 - 17, U32 - 255, U32 - g["fs_info"] + 1 if g["fs_info"] else U32 - 40, U32 - total // 2])
+            lba = max(1, min(lba, U32 - 1))
+            short = rng.choice([1, 16, 17, U32 - lba, max(1, U32 - lba - 1)])
+            p = 446 + 16 * g["slot"]; put(b[0], p + 8, 4, lba); put(b[0], p + 12, 4, short)
+            info = b.get(g["lba"] + g["fs_info"]) if g["fs_info"] else None
+            nb = {0: b[0], lba: boot}
+            if info is not None and lba + g["fs_info"] <= U32:
+                nb[lba + g["fs_info"]] = bytearray(info)
+            cases.append(Case("short_entry_high_lba", nb, g["slot"], "lba=%d table length=%d bpb total=%d" % (lba, short, total)))
     # (iv) random single-byte / few-byte mutations anywhere in the three sectors
     for _ in range(1200 * scale):
         g, bl = rng.choice(bases)
